@@ -2,6 +2,8 @@ package main
 
 import (
 	"fmt"
+	"os"
+	"strings"
 	"sync"
 	"time"
 
@@ -39,8 +41,41 @@ func c03() {
 		}
 		jobs = append(jobs, u)
 	}
+	// invalid-tail forks: the branch (one block longer than the main path) ends in a block that is
+	// invalid on a valid parent - at the branch tip, or (thorough) one below it with a header-only block on top.
+	// Adopting the branch applies the valid prefix, fails, and is rolled back by a second reorg; every
+	// apply/revert of both reorgs is a commit boundary.
+	invalidTail := map[*univ.Universe]bool{}
+	nValidJobs := len(jobs)
+	for _, u := range jobs[:nValidJobs] {
+		if !strings.Contains(u.Name, "/empty/+1") && !(run.Thorough() && strings.Contains(u.Name, "/conflict/+1")) {
+			continue
+		}
+		last := len(u.Nodes) - 1 // branch nodes are added last
+		for _, k := range []int{last, u.Nodes[last].Parent} {
+			if k != last && !run.Thorough() {
+				continue
+			}
+			if k == 0 || u.Nodes[k].Label[0] != 'b' {
+				continue
+			}
+			// a corruption that passes the header/orphan checks, so that the block is stored and the reorg
+			// is attempted: an extra transaction with a bad signature (v1 or v2, whichever the height allows)
+			for _, kind := range []string{"bad-v2-signature", "bad-signature"} {
+				if cu, ok := univ.Corrupt(u, k, kind); ok && cu.Nodes[k].HeaderOK {
+					invalidTail[cu] = true
+					jobs = append(jobs, cu)
+					break
+				}
+			}
+		}
+	}
+	if os.Getenv("VERIF_C03_ONLY") == "invalidtail" { // debugging aid
+		jobs = jobs[nValidJobs:]
+	}
 	var mu sync.Mutex
 	images, distinctImages := 0, 0
+	failedReorgHits, failedReorgFirst := 0, ""
 	parallel(len(jobs), func(i int) {
 		if run.Expired() {
 			run.Cap("time budget: not all universes explored")
@@ -74,7 +109,7 @@ func c03() {
 					imgs = append(imgs, img)
 					tipsAt = append(tipsAt, -1)
 				}
-				_, pan := applySubmission(n, o)
+				opErr, pan := applySubmission(n, o)
 				n.DB.OnFlush, n.Obs.Hook = nil, nil
 				cw.hist = append(cw.hist, o)
 				if pan != nil {
@@ -108,6 +143,9 @@ func c03() {
 						return v
 					}
 					rt := rn.TipNode()
+					if rt >= 0 && !u.Nodes[rt].Valid {
+						return &bfs.Violation{Signature: "c03:reopened-at-invalid-block", What: fmt.Sprintf("%s: reopened tip %s is an invalid block", where, u.Nodes[rt].Label)}
+					}
 					if rt < 0 || !passed[rt] {
 						return &bfs.Violation{Signature: "c03:reopened-tip-never-held", What: fmt.Sprintf("%s: reopened tip %v is not a tip the node had passed through (%v)", where, rn.CM.Tip(), passed)}
 					}
@@ -126,6 +164,32 @@ func c03() {
 						if _, pan := applySubmission(rn, h); pan != nil {
 							return &bfs.Violation{Signature: "c03:catchup-panic", What: fmt.Sprintf("%s: resubmitting %v after reopening at %s panicked: %v", where, h, u.Nodes[rt].Label, pan)}
 						}
+					}
+					if os.Getenv("VERIF_DEBUG") != "" && invalidTail[u] && rt != finalTip {
+						fmt.Printf("DBG %s hist=%v image %d/%d reopened=%s final=%s catchup=%s\n", u.Name, histStrings(cw.hist), j+1, len(imgs), u.Nodes[rt].Label, u.Nodes[finalTip].Label, u.Nodes[rn.TipNode()].Label)
+					}
+					if ct := rn.TipNode(); ct != finalTip && invalidTail[u] && opErr != nil && ct >= 0 && u.Nodes[ct].Valid && passed[ct] && !u.IsAncestor(ct, finalTip) &&
+						!u.Nodes[finalTip].L.State.SufficientlyHeavierThan(u.Nodes[ct].L.State) {
+						// recorded finding: the commit was taken inside a reorg that later failed (the submission
+						// returned an error) and was rolled back. The reopened node keeps a valid prefix of the
+						// failed branch; the tip the uninterrupted node rolled back to is not sufficiently heavier
+						// than that prefix, so resubmitting the history cannot move the reopened node there
+						// (collected and reported once; the remaining images of this transition are still checked)
+						mu.Lock()
+						failedReorgHits++
+						if failedReorgFirst == "" {
+							failedReorgFirst = fmt.Sprintf("%s: after reopening at %s and resubmitting the history the tip is %s, uninterrupted run ended at %s", where, u.Nodes[rt].Label, u.Nodes[ct].Label, u.Nodes[finalTip].Label)
+						}
+						mu.Unlock()
+						if err := rn.Audit(); err != nil {
+							return &bfs.Violation{Signature: "c03:catchup-audit", What: fmt.Sprintf("%s: after catching up at %s: %v", where, u.Nodes[ct].Label, err)}
+						}
+						if got, err := rn.CanonDump(); err != nil {
+							return &bfs.Violation{Signature: "c03:catchup-inconsistent", What: fmt.Sprintf("%s: %v", where, err)}
+						} else if d := node.DiffDumps(got, tw.dump(ct)); len(d) > 0 {
+							return &bfs.Violation{Signature: "c03:catchup-differs:" + bucketOf(d[0]), What: fmt.Sprintf("%s: after reopening at %s and catching up to %s, store differs from a linear node in %d keys, first %v", where, u.Nodes[rt].Label, u.Nodes[ct].Label, len(d), head(d, 3))}
+						}
+						continue
 					}
 					if rn.TipNode() != finalTip {
 						return &bfs.Violation{Signature: "c03:catchup-tip", What: fmt.Sprintf("%s: after reopening at %s and resubmitting the history the tip is %v, uninterrupted run ended at %s", where, u.Nodes[rt].Label, rn.CM.Tip(), u.Nodes[finalTip].Label)}
@@ -152,11 +216,16 @@ func c03() {
 			run.Violate(v.Signature, v.What, map[string]any{"universe": u.Describe(), "history": histStrings(v.History)})
 		}
 	})
+	if failedReorgHits > 0 {
+		run.Violate("c03:catchup-tip:commit-inside-failed-reorg-keeps-valid-prefix", fmt.Sprintf("%d commit images; first: %s", failedReorgHits, failedReorgFirst), map[string]any{"images": failedReorgHits})
+	}
+	run.Extra["images_inside_failed_reorg_keeping_valid_prefix"] = failedReorgHits
 	run.Evaluations = int64(images)
 	run.DistinctN = int64(distinctImages)
 	run.Extra["commit_images"] = images
 	run.Extra["distinct_images_reopened"] = distinctImages
 	run.Extra["universes"] = len(jobs)
+	run.Extra["universes_with_invalid_tail"] = len(invalidTail)
 	run.Rule = "for every transition of the C02 exploration (storyline universes without shared window ends, submission ops 'upto(k)', depth bound below) the store's time-based flush is forced after every single block apply/revert; every committed image is reopened (NewDBStore+NewManager), must reopen to a tip the node held, pass the best-chain audit, equal a linear node's store for that tip, and after resubmitting the whole history reach the uninterrupted run's tip and store; distinct = distinct (image, history length, final tip) triples"
 	run.Explanation = fmt.Sprintf("depth bound %d. Commit boundaries = every shouldFlush() call site reached (forced true through the vtime seam in chain/db.go) plus the end-of-reorg flush.", depth)
 	run.Assumptions = []string{"torn writes below the chain.DB abstraction are out of scope (bbolt's atomic commit is trusted)", "shared-window-end storylines are excluded here because of the recorded C02 finding"}
